@@ -19,7 +19,7 @@ Proof.
 Qed.
 
 (* ---- the label machine on a whole program ------------------------------------------------------------------- *)
-Definition pr0 (p : prog) : promise := mkPr (lexdecls p) (vardecls p).
+Definition pr0 (p : prog) : promise := mkPr (lexdecls p) (vardecls p) false.
 Definition e0 (p : prog) : env := [(O, false, vardecls p ++ lexdecls p)].
 
 (* the fragment without default values is part of the fragment with them *)
@@ -36,9 +36,9 @@ Proof.
   - apply andb_true_iff in H. destruct H as [H1 H2]. rewrite H1, (IHp H2). reflexivity.
   - apply andb_true_iff in H. destruct H as [H1 H2]. rewrite (IHp1 H1), (IHp2 H2). reflexivity.
   - destruct nm; [discriminate|]. apply andb_true_iff in H. destruct H as [H H3]. apply andb_true_iff in H. destruct H as [H1 H2].
-    destruct (params_only_pcore_d _ H1) as [Q1 Q2]. rewrite Q1, Q2, (IHp2 H2), (IHp3 H3). reflexivity.
+    destruct (params_only_pcore_d _ H1) as [Q1 Q2]. rewrite Q1, (IHp2 H2), (IHp3 H3). reflexivity.
   - apply andb_true_iff in H. destruct H as [H H3]. apply andb_true_iff in H. destruct H as [H1 H2].
-    destruct (params_only_pcore_d _ H1) as [Q1 Q2]. rewrite Q1, Q2, (IHp2 H2), (IHp3 H3). reflexivity.
+    destruct (params_only_pcore_d _ H1) as [Q1 Q2]. rewrite Q1, (IHp2 H2), (IHp3 H3). reflexivity.
   - apply andb_true_iff in H. destruct H as [H H4]. apply andb_true_iff in H. destruct H as [H H3]. apply andb_true_iff in H. destruct H as [H1 H2].
     rewrite H1, H2, (IHp2 H3), (IHp3 H4). reflexivity.
 Qed.
@@ -64,11 +64,15 @@ Proof.
       + constructor.
       + constructor.
       + split; [lia|intros y []].
+      + intros y [].
+      + constructor.
       + intros g [].
       + intros _. reflexivity.
+      + intros _. reflexivity.
     - intros fp [<-|[]]. cbn. lia.
+    - intros s x [].
     - intros s x []. }
-  destruct (run_core p Hc a0 F0 (pr0 p) [] A0 Hnd) as (a' & fr' & rest' & R & A' & G & P1 & P2 & _ & _ & F & N).
+  destruct (run_core p Hc a0 F0 (pr0 p) [] A0 Hnd) as (a' & fr' & rest' & R & A' & G & P1 & P2 & _ & _ & _ & F & N).
   { intros x Hx. split; [exact Hx|intros []]. }
   { intros x Hx. cbn. exact Hx. }
   { rewrite (core_x_headdecls p Hc). constructor. }
@@ -90,9 +94,12 @@ Lemma end_labels p a' fr' :
     match l with
     | LDecl s x => final (e0 p) l = TBind s false x
     | LPend s x => s = O /\ final (e0 p) l = TGlobal x
+    | LArg _ _ => False
     end.
 Proof.
-  intros A Hfid Hfull [s x|s x] Hl; [reflexivity|].
+  intros A Hfid Hfull [s x|s x|s x] Hl; [reflexivity| |].
+  2:{ destruct (A_logarg _ _ A s x Hl) as (fp & [<-|[]] & Hs & Hu). cbn [fst] in *. destruct (A_frames _ _ A) as [K _].
+      exact (no_uarg_unmarked _ _ _ x K eq_refl Hu). }
   destruct (A_log _ _ A s x Hl) as (fp & [<-|[]] & Hs & Hu). cbn [fst] in *.
   split; [congruence|]. cbn [final e0 drop_to]. rewrite <- Hs, Hfid. cbn [Nat.eqb lookup].
   destruct (A_frames _ _ A) as [K _].
@@ -154,6 +161,7 @@ Proof.
             match lab_of st home w with
             | LDecl s x => final (e0 p) (lab_of st home w) = TBind s false x
             | LPend s x => s = O /\ final (e0 p) (lab_of st home w) = TGlobal x
+            | LArg _ _ => False
             end).
   { intros w Hw. apply (end_labels p a' fr' A' Hfid Hfull). rewrite Elog. apply in_map. apply in_rev. exact Hw. }
   assert (Hroot : forall w, (w < nvars st)%nat ->
@@ -182,10 +190,13 @@ Proof.
       unfold lab_of in *. unfold lab_root in *.
       destruct (Z.eqb_spec (vdecl (vget st (root_of st wi))) 0) as [Di|Di];
         destruct (Z.eqb_spec (vdecl (vget st (root_of st wj))) 0) as [Dj|Dj].
-      * destruct Li as [Hi0 Li]. destruct Lj as [Hj0 Lj]. rewrite Li, Lj in E. injection E as E.
-        apply (pend_label_inj st log [O] home no_extra _ _ RS Vi Vj Ri Rj Di Dj); [congruence|exact E|intros []|intros []].
-      * destruct Li as [_ Li]. rewrite Li, Lj in E. discriminate.
-      * destruct Lj as [_ Lj]. rewrite Li, Lj in E. discriminate.
+      * destruct (argp st home (root_of st wi)) eqn:Ai; [destruct Li|]. destruct (argp st home (root_of st wj)) eqn:Aj; [destruct Lj|].
+        destruct Li as [Hi0 Li]. destruct Lj as [Hj0 Lj]. rewrite Li, Lj in E. injection E as E.
+        apply (pend_label_inj st log [O] home no_extra _ _ RS Vi Vj Ri Rj Di Dj); [congruence|exact E|congruence|intros []|intros []].
+      * destruct (argp st home (root_of st wi)) eqn:Ai; [destruct Li|].
+        destruct Li as [_ Li]. rewrite Li, Lj in E. discriminate.
+      * destruct (argp st home (root_of st wj)) eqn:Aj; [destruct Lj|].
+        destruct Lj as [_ Lj]. rewrite Li, Lj in E. discriminate.
       * rewrite Li, Lj in E. injection E as E1 E2.
         apply (decl_label_inj st log [O] home no_extra _ _ RS Vi Vj Ri Rj Di Dj); assumption.
   - (* unbound names are undeclared variables of the module scope *)
@@ -195,7 +206,8 @@ Proof.
     pose proof (Hlab wi Hwi) as Li. destruct (Hroot wi (Hval wi Hwi)) as [Vi Ri].
     unfold lab_of in *. unfold lab_root in *.
     destruct (Z.eqb_spec (vdecl (vget st (root_of st wi))) 0) as [Di|Di].
-    + destruct Li as [Hi0 Li]. rewrite Li in Ex. injection Ex as Ex.
+    + destruct (argp st home (root_of st wi)) eqn:Ai; [destruct Li|].
+      destruct Li as [Hi0 Li]. rewrite Li in Ex. injection Ex as Ex.
       destruct (I_pend_complete _ _ _ _ _ RS _ Vi Ri Di) as [[_ Hin]|[]].
       rewrite Hi0 in Hin. split; [exact Hin|]. split; [exact Di|exact Ex].
     + rewrite Li in Ex. discriminate.
@@ -206,7 +218,8 @@ Proof.
     pose proof (Hlab wi Hwi) as Li.
     unfold lab_of in *. unfold lab_root in *.
     destruct (Z.eqb_spec (vdecl (vget st (root_of st wi))) 0) as [Di|Di].
-    + destruct Li as [_ Li]. rewrite Li in Ex. discriminate.
+    + destruct (argp st home (root_of st wi)) eqn:Ai; [destruct Li|].
+      destruct Li as [_ Li]. rewrite Li in Ex. discriminate.
     + rewrite Li in Ex. injection Ex as _ _ Ex. split; [exact Di|exact Ex].
   - (* Uses *)
     intros i Hi. rewrite Hnth_v by exact Hi.
